@@ -297,6 +297,46 @@ theorem C03_cmap_model (gs : List (String × List Nat)) (h : noDup gs = true) :
     ∃ m, unicodeMap gs = .ok m ∧ holdsCmap gs (cmapTables m).fmt4 (cmapTables m).fmt12 = true :=
   ⟨declared gs, by rw [unicodeMap_spec]; simp [h], C03_cmap gs h⟩
 
+/-- every code point of every glyph is a declaration - whatever the glyph's FIRST code point is (no "encoded glyph"
+pre-filter on `glyph.unicode`, whose value 0 for U+0000 is falsy in Python) -/
+theorem mem_declared {gs : List (String × List Nat)} {g : String} {us : List Nat} {u : Nat}
+    (hg : (g, us) ∈ gs) (hu : u ∈ us) : (u, g) ∈ declared gs := by
+  unfold declared
+  exact mem_flatMap.mpr ⟨(g, us), hg, mem_map.mpr ⟨u, hu, rfl⟩⟩
+
+/-- **C03_cmap_every**: in the model, every code point `u` (U+0000 included, first or secondary) of every glyph of a
+duplicate-free source is mapped to that glyph: in the 16-bit subtables when `u ≤ 0xFFFF`, and in the 32-bit subtables
+whenever these exist. -/
+theorem C03_cmap_every (gs : List (String × List Nat)) (h : noDup gs = true) (g : String) (us : List Nat) (u : Nat)
+    (hg : (g, us) ∈ gs) (hu : u ∈ us) :
+    ∃ m, unicodeMap gs = .ok m ∧ (u ≤ 65535 → (u, g) ∈ (cmapTables m).fmt4) ∧
+      (∀ t, (cmapTables m).fmt12 = some t → (u, g) ∈ t) := by
+  refine ⟨declared gs, by rw [unicodeMap_spec]; simp [h], ?_, ?_⟩
+  · intro hle
+    have hd := mem_declared hg hu
+    unfold cmapTables
+    by_cases he : ((declared gs).filter (fun e => e.1 > 65535)).isEmpty = true
+    · simp only [he, if_true]; exact hd
+    · simp only [he, Bool.false_eq_true, if_false]
+      exact mem_filter.mpr ⟨hd, by simpa using hle⟩
+  · intro t ht
+    have hd := mem_declared hg hu
+    unfold cmapTables at ht
+    by_cases he : ((declared gs).filter (fun e => e.1 > 65535)).isEmpty = true
+    · simp [he] at ht
+    · simp only [he, Bool.false_eq_true, if_false, Option.some.injEq] at ht
+      subst ht
+      by_cases hle : u ≤ 65535
+      · exact mem_append.mpr (Or.inr (mem_filter.mpr ⟨hd, by simpa using hle⟩))
+      · exact mem_append.mpr (Or.inl (mem_filter.mpr ⟨hd, by simpa using hle⟩))
+
+/-- witness: a NULL glyph whose first code point is U+0000 keeps both its code points -/
+example : unicodeMap [(".notdef", []), ("NULL", [0, 13]), ("A", [65])] = .ok [(0, "NULL"), (13, "NULL"), (65, "A")] := by
+  rw [unicodeMap_spec, if_pos (by decide)]; rfl
+/-- and a clash with one of its secondary code points is rejected -/
+example : unicodeMap [(".notdef", []), ("NULL", [0, 13]), ("CR", [13])] = .error .invalidFontData :=
+  C03_dup _ (by decide)
+
 theorem fst_nodup_unique {m : List (Nat × String)} (hnd : (m.map (·.1)).Nodup) {u : Nat} {g g' : String}
     (h1 : (u, g) ∈ m) (h2 : (u, g') ∈ m) : g = g' := by
   induction m with
